@@ -28,6 +28,9 @@ type HStep struct {
 	// RealCtx: a second hello that the model expects NOT to be processed is
 	// nevertheless sealed with the connection's real HPKE context (advancing it).
 	RealCtx bool `json:"real_ctx,omitempty"`
+	// Join (backend records): written in the same Conn.Write call as the next
+	// backend record of the history (a backend flushing several records at once).
+	Join bool `json:"join,omitempty"`
 }
 
 // HistoryPlan: an accepted first hello followed by an interleaving of client
@@ -406,8 +409,9 @@ func runHistory(prop string, seed uint64, p *HistoryPlan, b *built, io_ *histIO,
 	hc := &histClient{p: &p.Base, b: b, r: res, seed: seed, sendSeq: 1}
 	outLen := 0
 	var sigParts []string
+	var pendingW []byte
 	for i, st := range p.Steps {
-		sigParts = append(sigParts, st.Side+":"+st.Kind)
+		sigParts = append(sigParts, st.Side+":"+st.Kind+fmt.Sprint(st.Join))
 		if st.Side == "b" {
 			var rec []byte
 			switch st.Kind {
@@ -418,20 +422,30 @@ func runHistory(prop string, seed uint64, p *HistoryPlan, b *built, io_ *histIO,
 			default:
 				rec = plainRecord(seed, st.Kind, i)
 			}
-			wn, werr := io_.write(rec)
-			if *io_.pk != "" {
-				fail("panic", *io_.pk, "step %d: Write %s", i, st.Kind)
-				break
+			pendingW = append(pendingW, rec...)
+			flush := !(st.Join && i+1 < len(p.Steps) && p.Steps[i+1].Side == "b")
+			if flush {
+				if len(pendingW) > len(rec) {
+					res.Probe("several_records_per_write")
+				}
+				wn, werr := io_.write(pendingW)
+				if *io_.pk != "" {
+					fail("panic", *io_.pk, "step %d: Write %s", i, st.Kind)
+					break
+				}
+				if werr != nil || wn != len(pendingW) {
+					fail("history", "Conn.Write of a backend "+st.Kind+" record failed", "step %d: n=%d err=%v", i, wn, werr)
+					break
+				}
+				if got := io_.out()[outLen:]; !bytes.Equal(got, pendingW) {
+					fail("history", "backend "+st.Kind+" record not forwarded unchanged", "step %d: %d bytes written, records have %d", i, len(got), len(pendingW))
+					break
+				}
+				pendingW = nil
 			}
-			if werr != nil || wn != len(rec) {
-				fail("history", "Conn.Write of a backend "+st.Kind+" record failed", "step %d: n=%d err=%v", i, wn, werr)
-				break
+			if flush {
+				outLen = len(io_.out())
 			}
-			if got := io_.out()[outLen:]; !bytes.Equal(got, rec) {
-				fail("history", "backend "+st.Kind+" record not forwarded unchanged", "step %d: %d bytes written, record has %d", i, len(got), len(rec))
-				break
-			}
-			outLen = len(io_.out())
 			if wInspect {
 				switch st.Kind {
 				case "appdata":
@@ -554,7 +568,7 @@ func genC06(seed uint64, idx int) *Plan {
 	for i := 0; i < n; i++ {
 		var st HStep
 		if r.IntN(2) == 0 {
-			st = HStep{Side: "b", Kind: bKinds[r.IntN(len(bKinds))]}
+			st = HStep{Side: "b", Kind: bKinds[r.IntN(len(bKinds))], Join: r.IntN(3) == 0}
 			if i == 0 && r.IntN(2) == 0 {
 				st.Kind = "hrr"
 			}
